@@ -144,7 +144,7 @@ fn gen_aquery(rng: &mut Rng) -> AQuery {
         if rng.chance(3, 5) {
             let n = if bad && rng.chance(1, 5) { q.order.len() + 1 } else { 1 + rng.below(q.order.len() as u64) as usize };
             let mut vals = vec![];
-            for i in 0..n { let t = q.order.get(i).and_then(|(k, _)| key_type(&q, k)); let mut ps = vec![]; let wrong = bad && rng.chance(1, 5); let v = gen_val(rng, t, &mut var, &mut ps, wrong); let v = if matches!(v, AVal::Null) { AVal::Int } else { v }; q.params.extend(ps); vals.push(v); }
+            for i in 0..n { let t = q.order.get(i).and_then(|(k, _)| key_type(&q, k)); let mut ps = vec![]; let wrong = bad && rng.chance(1, 5); let v = gen_val(rng, t, &mut var, &mut ps, wrong); let v = if matches!(v, AVal::Null) && !bad { AVal::Int } else { v }; q.params.extend(ps); vals.push(v); }
             if rng.chance(1, 2) { q.before = vals.clone(); } else { q.after = vals.clone(); }
             if bad && rng.chance(1, 6) { q.before = vals.clone(); q.after = vals; }
         }
@@ -181,6 +181,8 @@ pub async fn clause_streams(rng: &mut Rng, out: &mut Out, stats: &mut serde_json
     let mut directed: Vec<(AQuery, &str)> = vec![
         (AQuery { sel: vec![f(0), ASel::Agg(0, 0, "total".into())], order: vec![(AKey::Ent(0), false)], after: vec![AVal::Str("en".into())], ..Default::default() }, "aggregate with order_by and after(), no filter on the aggregate"),
         (AQuery { sel: vec![f(0), ASel::Agg(0, 0, "total".into())], order: vec![(AKey::Ent(0), true)], before: vec![AVal::Str("fr".into())], ..Default::default() }, "aggregate with order_by and before()"),
+        (AQuery { sel: vec![f(0)], order: vec![(AKey::Ent(0), false)], after: vec![AVal::Null], ..Default::default() }, "null in after(): not in the grammar, a parse error"),
+        (AQuery { sel: vec![f(0), f(1)], order: vec![(AKey::Ent(1), true)], before: vec![AVal::Null], ..Default::default() }, "null in before(): not in the grammar, a parse error"),
         (AQuery { sel: vec![f(0), ASel::Agg(0, 0, "total".into())], order: vec![(AKey::Sel(1, "total".into()), false)], after: vec![AVal::Int], filters: vec![(AKey::Sel(1, "total".into()), ">".into(), AVal::Int)], ..Default::default() }, "aggregate with a filter on the aggregate and after()"),
         (AQuery { sel: vec![f(0), ASel::Agg(1, 1, "av".into()), ASel::Agg(4, 2, "sm".into())], filters: vec![(AKey::Sel(1, "av".into()), ">=".into(), AVal::Float), (AKey::Ent(0), "!=".into(), AVal::Str("xx".into()))], first: Some(None), skip: Some(None), ..Default::default() }, "aggregates, filters on both sides of GROUP BY, first and skip"),
         (AQuery { sel: vec![ASel::Agg(0, 0, "total".into())], filters: vec![(AKey::Sel(0, "total".into()), ">".into(), AVal::Int)], ..Default::default() }, "aggregate without any grouped field, filter on it (HAVING without GROUP BY)"),
@@ -193,7 +195,7 @@ pub async fn clause_streams(rng: &mut Rng, out: &mut Out, stats: &mut serde_json
         (AQuery { sel: vec![f(0)], first: Some(Some(1)), params: vec![(1, PV::Str(format!("{}{}", "a".repeat(50), "€".repeat(40))))], ..Default::default() }, "refused parameter for first"),
     ];
     let n_dir = directed.len();
-    let n = n_dir + scale(450, 6000);
+    let n = n_dir + scale(380, 6000);
     let mut verdicts = [0usize; 4];
     let mut clause_use = [0usize; 9];
     for i in 0..n {
